@@ -120,6 +120,9 @@ def simulate_histories(ctx, constants, num, depth, seed, label):
         if st.get("done") is True:
             out.append(history_from_tla(st["h"]))
     shutil.rmtree(res["simdir"], ignore_errors=True)
+    m = re.search(r"number of states generated: (\d+)", res["output"])
+    if m:
+        res["generated"] = int(m.group(1))                     # states visited by the walks (not folded as distinct)
     ctx.add_tlc(res, label)
     return out
 
@@ -262,6 +265,12 @@ def preload():
     import breezy.git.dir  # noqa: F401
     import breezy.git.branch  # noqa: F401
     import dulwich.repo  # noqa: F401
+
+
+def quiet():
+    """push / fetch / exporter / importer report progress and 'slow' warnings through the brz logger."""
+    import logging
+    logging.getLogger("brz").setLevel(logging.ERROR)
 
 
 def real_tree(t):
@@ -600,7 +609,7 @@ def _without(t, obj):
     return [f for f in t if f["p"][:len(p)] != p]
 
 
-def minimise(h, run, budget=80):
+def minimise(h, run, budget=120):
     """Shrink h while run(h) keeps returning the same failure kind.  Returns (minimal history, runs used)."""
     want = run(h)
     used = [1]
@@ -781,3 +790,54 @@ def minimise_row(h, kind_of, once, names):
     if names == 1 and kind_of(once(m, 0)) is None:
         cls += "+one-character-name"
     return m, cls, used
+
+
+def cause_group(h, cls):
+    """Family of a minimal failing history, for properties whose implementation fails on whole families of inputs
+    (fast-export / fast-import and renames).  A family is named only when the minimal history really has its
+    ingredients; everything else keeps its fine-grained class, so that a failure outside the families is not absorbed:
+      second-root         more than one root revision
+      revision-property   needs a revision property
+      rename-combined     a rename together with a change of ANOTHER object (added, deleted, moved, kind-changed) or
+                          with a kind change of the renamed object itself
+      directory-kind-change   no rename; a path or object changes between directory and non-directory
+      single-rename[...]  exactly one object renamed (children of a renamed directory follow), nothing else touched
+    """
+    extra = "".join("+" + x for x in ("plain", "rich-noprune", "one-character-name") if ("+" + x) in ("+" + cls))
+    if "second-root" in cls:
+        return "second-root"
+    if "revision-property" in cls:
+        return "revision-property"
+    n = len(h["P"])
+    if not h["P"][n - 1]:
+        return cls
+    base = {e["o"]: e for e in h["T"][h["P"][n - 1][0] - 1]}
+    cur = {e["o"]: e for e in h["T"][n - 1]}
+    moved = {o for o, e in cur.items() if o in base and base[o]["p"] != e["p"]}
+    # children that only follow a renamed directory
+    implied = set()
+    for o in moved:
+        for d in moved:
+            if d != o and cur[d]["k"] == "directory" and base[d]["k"] == "directory":
+                bp, cp = base[d]["p"], cur[d]["p"]
+                if base[o]["p"][:len(bp)] == bp and cur[o]["p"][:len(cp)] == cp and base[o]["p"][len(bp):] == cur[o]["p"][len(cp):]:
+                    implied.add(o)
+    renamed = moved - implied
+    others = {o for o in set(base) | set(cur) if o not in moved and base.get(o) != cur.get(o)}
+    kind_changed = {o for o in set(base) & set(cur) if base[o]["k"] != cur[o]["k"]}
+    dirkind = {o for o in kind_changed if "directory" in (base[o]["k"], cur[o]["k"])}
+    bpaths = {tuple(e["p"]): e for e in base.values()}
+    for e in cur.values():                                     # another object takes a path over with another dir-ness
+        b = bpaths.get(tuple(e["p"]))
+        if b is not None and b["o"] != e["o"] and (b["k"] == "directory") != (e["k"] == "directory"):
+            dirkind.add(e["o"])
+    if renamed:
+        if len(renamed) > 1 or others or (renamed & kind_changed):
+            return "rename-combined" + extra
+        o = next(iter(renamed))
+        mod = "+modified" if (base[o]["c"], base[o]["x"]) != (cur[o]["c"], cur[o]["x"]) else ""
+        kids = "-with-children" if implied else ""
+        return "single-rename-of-%s%s%s%s" % (cur[o]["k"], kids, mod, extra)
+    if dirkind:
+        return "directory-kind-change" + extra
+    return cls
